@@ -15,6 +15,15 @@ func init() {
 		_ = fs.Parse(args)
 		return delaunay.Run(*in, *out, *par)
 	}
+	commands["dt-aspect"] = func(args []string) error {
+		fs := flag.NewFlagSet("dt-aspect", flag.ExitOnError)
+		out := fs.String("out", "", "cases ndjson")
+		seed := fs.Int64("seed", 1, "seed")
+		per := fs.Int("per", 2, "sets per aspect ratio and orientation")
+		maxa := fs.Float64("max", 1000, "largest aspect ratio")
+		_ = fs.Parse(args)
+		return delaunay.GenAspect(*out, *seed, *per, *maxa)
+	}
 	commands["dt-random"] = func(args []string) error {
 		fs := flag.NewFlagSet("dt-random", flag.ExitOnError)
 		out := fs.String("out", "", "cases ndjson")
